@@ -1,0 +1,35 @@
+//go:build verif
+
+package fastforward
+
+// This file is only built with the "verif" build tag. It lets the external
+// verification harness build a Forward over in-memory upstreams.
+
+import (
+	"github.com/IrineSistiana/mosdns/v5/pkg/upstream"
+	"go.uber.org/zap"
+)
+
+// VerifUpstream is one in-memory upstream with an optional tag.
+type VerifUpstream struct {
+	Tag string
+	U   upstream.Upstream
+}
+
+// VerifNewForward builds a Forward whose upstreams are the given values.
+func VerifNewForward(concurrent int, us []VerifUpstream) *Forward {
+	f := &Forward{
+		args:         &Args{Concurrent: concurrent},
+		logger:       zap.NewNop(),
+		tag2Upstream: make(map[string]*upstreamWrapper),
+	}
+	for i, vu := range us {
+		uw := newWrapper(i, UpstreamConfig{Tag: vu.Tag, Addr: "verif"}, "verif")
+		uw.u = vu.U
+		f.us = append(f.us, uw)
+		if len(vu.Tag) > 0 {
+			f.tag2Upstream[vu.Tag] = uw
+		}
+	}
+	return f
+}
